@@ -56,6 +56,10 @@ impl Property for C11 {
         }
     }
 
+    fn shrink_iters(&self) -> u32 {
+        3000
+    }
+
     fn tape_len(&self) -> usize {
         700
     }
